@@ -301,6 +301,13 @@ def run(ctx):
                 per_class[x] = per_class.get(x, 0) + 1
                 classes_seen[x] = classes_seen.get(x, 0) + 1
             chosen.append((what, c))
+    # deterministic configurations with long routes: a chain of five orderings on a 2x2 grid (routes of 1..4 hops, both parities,
+    # with and without spare buffer), even and uneven extents; and the six orderings of three dimensions (a ring)
+    chain5 = [[3, 1, 2], [3, 2, 1], [1, 2, 3], [1, 3, 2], [2, 3, 1]]
+    ring6 = [[1, 2, 3], [1, 3, 2], [2, 3, 1], [2, 1, 3], [3, 1, 2], [3, 2, 1]]
+    for sh_ in ([4, 4, 4], [5, 3, 4]):
+        chosen.append(("chain of five orderings (4-hop routes)", {"nd": 3, "sh": sh_, "np": [2, 2], "lays": chain5}))
+        chosen.append(("ring of six orderings", {"nd": 3, "sh": sh_, "np": [2, 2], "lays": ring6}))
     ctx.extra["configurations_replayed"] = len(chosen)
     ctx.extra["over_decomposed_configurations_with_an_idle_data_rank_replayed"] = idle_skipped[0]
     ctx.extra["classes"] = classes_seen
@@ -313,6 +320,8 @@ def run(ctx):
         combos = [(DTYPES[i % 3], bool(i % 2))] if quick else [(d, b) for d in DTYPES for b in (False, True)]
         if quick:
             combos.append((DTYPES[(i + 1) % 3], not bool(i % 2)))
+        if what.startswith(("chain of five", "ring of six")):
+            combos = [(DTYPES[i % 3], False), (DTYPES[(i + 1) % 3], True)]
         for dtype, usebuf in combos:
             run_config(ctx, c, rng, dtype, usebuf, events, meta, order_seed=rng.randint(0, 99) if i % 3 == 0 else None)
     ctx.log("replayed %d configurations -> %d recorded transpose calls" % (len(chosen), len(events)))
